@@ -87,13 +87,21 @@ def insert (m : RevMap) (r : Right) (v : Bool × Sk) : RevMap :=
   if (m.lookup r).isSome then m.map (fun p => if p.1 == r then (p.1, v :: p.2) else p)
   else m ++ [(r, [v])]
 
+/-- replace the head of a chain -/
+def setHead (v : Bool × Sk) : List (Bool × Sk) → List (Bool × Sk)
+  | [] => []
+  | _ :: tl => v :: tl
+
+/-- `LinkedList::split_off(n)` keeping the front, when `n <= len` -/
+def keepN (n : Nat) (c : List (Bool × Sk)) : List (Bool × Sk) := if n ≤ c.length then c.take n else c
+
 /-- `get_latest_mut` followed by an assignment -/
 def setLatest (m : RevMap) (r : Right) (v : Bool × Sk) : RevMap :=
-  m.map (fun p => if p.1 == r then (p.1, match p.2 with | [] => [] | _ :: tl => v :: tl) else p)
+  m.map (fun p => if p.1 == r then (p.1, setHead v p.2) else p)
 
 /-- `RevisionMap::keep(key, n)` -/
 def keep (m : RevMap) (r : Right) (n : Nat) : RevMap :=
-  m.map (fun p => if p.1 == r then (p.1, if n ≤ p.2.length then p.2.take n else p.2) else p)
+  m.map (fun p => if p.1 == r then (p.1, keepN n p.2) else p)
 
 /-- `RevisionMap::retain` -/
 def retain (m : RevMap) (f : Right → Bool) : RevMap := m.filter (fun p => f p.1)
